@@ -21,13 +21,13 @@ def compareNumbers : List (String × String × String) := [
   ("primitive.Decimal128", "primitive.Decimal128", "return compareExact(exactFromDecimal128(l), exactFromDecimal128(r))")]
 
 def add : List (String × String × String) := [
-  ("int32", "int32", "return num + inc"),
-  ("int32", "int64", "return int64(num) + inc"),
+  ("int32", "int32", "return promoteInt32(int64(num) + int64(inc))"),
+  ("int32", "int64", "return addInt64(int64(num), inc)"),
   ("int32", "float64", "return float64(num) + inc"),
   ("int32", "primitive.Decimal128", "return decToD128(decimal.NewFromInt(int64(num)).Add(safeD128ToDec(inc)))"),
   ("int32", "default", "return Missing"),
-  ("int64", "int32", "return num + int64(inc)"),
-  ("int64", "int64", "return num + inc"),
+  ("int64", "int32", "return addInt64(num, int64(inc))"),
+  ("int64", "int64", "return addInt64(num, inc)"),
   ("int64", "float64", "return float64(num) + inc"),
   ("int64", "primitive.Decimal128", "return decToD128(decimal.NewFromInt(num).Add(safeD128ToDec(inc)))"),
   ("int64", "default", "return Missing"),
@@ -44,13 +44,13 @@ def add : List (String × String × String) := [
   ("", "default", "return Missing")]
 
 def mul : List (String × String × String) := [
-  ("int32", "int32", "return num * mul"),
-  ("int32", "int64", "return int64(num) * mul"),
+  ("int32", "int32", "return promoteInt32(int64(num) * int64(mul))"),
+  ("int32", "int64", "return mulInt64(int64(num), mul)"),
   ("int32", "float64", "return float64(num) * mul"),
   ("int32", "primitive.Decimal128", "return decToD128(decimal.NewFromInt(int64(num)).Mul(safeD128ToDec(mul)))"),
   ("int32", "default", "return Missing"),
-  ("int64", "int32", "return num * int64(mul)"),
-  ("int64", "int64", "return num * mul"),
+  ("int64", "int32", "return mulInt64(num, int64(mul))"),
+  ("int64", "int64", "return mulInt64(num, mul)"),
   ("int64", "float64", "return float64(num) * mul"),
   ("int64", "primitive.Decimal128", "return decToD128(decimal.NewFromInt(num).Mul(safeD128ToDec(mul)))"),
   ("int64", "default", "return Missing"),
